@@ -280,7 +280,7 @@ def gen(max_rows=10):
         cat_used = [c for c in cols_used if c in F.CAT_COLS]
         col = draw(st.sampled_from(cols_used + cols_used + cat_used * 3 + ["A", "x"]))
         is_cat = col in F.CAT_COLS
-        kinds = ["cat-to-num", "lose-levels", "lose-levels", "unseen-observed", "unseen-observed", "unseen-declared", "none"] if is_cat else ["num-to-text", "num-to-text", "none"]
+        kinds = ["cat-to-num", "cat-to-num", "lose-levels", "lose-levels", "unseen-observed", "unseen-observed", "unseen-declared", "none"] if is_cat else ["num-to-text", "num-to-text", "none"]
         mut = {"kind": draw(st.sampled_from(kinds)), "col": col, "pick": draw(st.integers(0, 5)), "single": draw(st.booleans()),
                "redeclare": draw(st.booleans()), "rows": draw(st.lists(st.integers(0, 20), min_size=1, max_size=3))}
         return {
@@ -288,14 +288,15 @@ def gen(max_rows=10):
             "mutation": mut, "rows": draw(st.lists(st.integers(0, 30), min_size=1, max_size=8)),
             "na_action": draw(st.sampled_from(["drop", "drop", "ignore"])),
             "subset": draw(st.one_of(st.none(), st.none(), st.lists(st.integers(0, 5), min_size=1, max_size=2))),
-            "rename": draw(st.sampled_from([None, None, "A", "B"])),
+            # (the odd name goes to the mutated column more often than to another one)
+            "rename": draw(st.sampled_from([None, None, "A", "B"] + ([col, col] if col in ("A", "B") else []))),
             "mat": draw(st.sampled_from(["pandas", "pandas", "narwhals"])),
         }
 
     return strat()
 
 
-BUDGET_S = {"quick": 70, "thorough": 1500}
+BUDGET_S = {"quick": 110, "thorough": 1500}
 
 
 def campaigns(tier, shard=0, nshards=1):
